@@ -231,7 +231,7 @@ def run_valid(args):
         return dict(row=row, seed=seed, error=None, beta=beta, ess=ess, ev=float(s.evidence()[0]), logz=float(logz), post_ok=post_ok)
     except Exception as e:
         import traceback
-        return dict(row=row, seed=seed, error=f"{type(e).__name__}: {e}", tb=traceback.format_exc()[-600:])
+        return dict(row=row, seed=seed, error=f"{type(e).__name__}: {e}", tb=traceback.format_exc()[-600:], tb_full=traceback.format_exc())
 
 
 def covering(rng, opts, strength, limit):
@@ -255,6 +255,18 @@ def covering(rng, opts, strength, limit):
     return rows, len(want)
 
 
+def known_abort_probe(run):
+    """the listed finding (shared with C14) reached by a valid configuration: a plain bimodal target, rwm + clustering, 64 particles"""
+    import ensemble as ens
+    r = ens.one(("bimodal", dict(clustering=True, sample="rwm"), 9554, 64))
+    run.case(key=("known-abort", 9554), nontrivial=True)
+    if not r["ok"] and r.get("known_c14"):
+        run.fail("single-point-cluster-singular-scale", f"Sampler(n_dim=2, n_particles=64, sample='rwm', clustering=True, random_state=9554) on a two-mode "
+                 f"Gaussian mixture aborts: {r['err']}", target="bimodal 0.3/0.7", random_state=9554)
+    elif not r["ok"]:
+        run.fail("valid-configuration-raises", f"a valid configuration failed to run: {r['err']}", random_state=9554)
+
+
 def check_valid(run, tier, rng, work):
     opts = dict(sample=["tpcn", "rwm"], resample=["mult", "syst"], clustering=[True, False], normalize=[True, False],
                 cluster_every=[1, 2, 3], n_max_clusters=[None, 1, 2, 3], split_threshold=[0.5, 1.0, 2.0], vv=[None, 0.5],
@@ -274,7 +286,10 @@ def check_valid(run, tier, rng, work):
         run.case(key=("valid", str(res["row"])), nontrivial=True)
         what = dict(config=res["row"], random_state=res["seed"])
         if res["error"]:
-            run.fail("valid-configuration-raises", f"a valid configuration failed to run: {res['error']}", traceback=res.get("tb"), **what)
+            if res["error"].startswith("LinAlgError") and "fit_mvstud" in (res.get("tb_full") or "") and "from_particles" in (res.get("tb_full") or ""):
+                run.fail("single-point-cluster-singular-scale", f"a valid configuration aborted in ModeStatistics.from_particles: {res['error']}", **what)
+            else:
+                run.fail("valid-configuration-raises", f"a valid configuration failed to run: {res['error']}", traceback=res.get("tb"), **what)
             continue
         if not (1 - res["beta"] < 1e-4 and res["ess"] >= 30 and abs(res["ev"] - res["logz"]) <= 1e-9 * max(1, abs(res["logz"])) and res["post_ok"]):
             run.fail("valid-configuration-postconditions", f"run finished with beta={res['beta']}, ESS={res['ess']}, evidence={res['ev']} vs {res['logz']}", **what)
@@ -307,6 +322,7 @@ def main(tier, seed):
     try:
         check_validation(run)
         check_valid(run, tier, rng, work)
+        known_abort_probe(run)
     except Exception:
         import traceback
         run.broken.append(("harness-exception", traceback.format_exc()[-1500:]))
